@@ -85,12 +85,19 @@ func sweepBases(ss *specStates, edges, pickAll bool, rng *rand.Rand) []sweepBase
 			continue
 		}
 		pre := toBytes(s.Inp)
+		seenTarget := map[string]int{}
 		for _, su := range s.Succ {
 			if su.Out != "run" {
 				continue
 			}
 			t := idx[su.Key]
 			if t == nil {
+				continue
+			}
+			// several byte classes may lead to the same target (all plain bytes inside a string do): two of them
+			// stand for that transition, except in the thorough tier
+			seenTarget[su.Key]++
+			if !pickAll && seenTarget[su.Key] > 2 {
 				continue
 			}
 			ms := mem[su.B]
@@ -113,6 +120,8 @@ type sweepOpts struct {
 	stop        bool     // emit pre+b
 	rejectConts [][]byte // token completions tried after a rejected byte
 	rejectAll   bool     // reject continuations for every picked byte (else only for the class representative)
+	viableOnly  bool     // only bytes the specification accepts in the base state
+	onePerClass bool     // one byte per class instead of first, last and a random member
 }
 
 // forSweepInputs calls fn for every input derived from base.  viable tells whether the
@@ -137,15 +146,22 @@ func forSweepInputs(ss *specStates, mem map[int][]int, base sweepBase, o sweepOp
 		bs := ms
 		if !o.allBytes {
 			bs = []int{ms[0]}
-			if len(ms) > 1 {
-				bs = append(bs, ms[len(ms)-1])
-			}
-			if len(ms) > 2 {
-				bs = append(bs, ms[1+rng.Intn(len(ms)-2)])
+			if o.onePerClass {
+				bs = []int{ms[rng.Intn(len(ms))]}
+			} else {
+				if len(ms) > 1 {
+					bs = append(bs, ms[len(ms)-1])
+				}
+				if len(ms) > 2 {
+					bs = append(bs, ms[1+rng.Intn(len(ms)-2)])
+				}
 			}
 		}
 		su := succ[cl]
 		viable := su != nil && (su.Out == "run" || su.Out == "done")
+		if o.viableOnly && !viable {
+			continue
+		}
 		for bi, b := range bs {
 			in := append(append([]byte{}, base.pre...), byte(b))
 			if o.stop {
